@@ -146,7 +146,7 @@ def run_siphash(case):
             for a in range(n + 1):
                 got = attempt(lambda: SipHash_2_4(key).update(msg[:a]).update(msg[a:]).hash())
                 if got != want:
-                    viol(res, "siphash", case, f"split/a%8={a % 8}/{len_class(n)}", hx(got), want, f"update({a} bytes).update({n - a} bytes) differs from one-shot hash")
+                    viol(res, "siphash", case, f"split/first-update={'<8' if a < 8 else '>=8'}-bytes", hx(got), want, f"update({a} bytes).update({n - a} bytes) differs from one-shot hash")
                 else:
                     n_ok += 1
         if n <= case["split3_max"]:
@@ -489,6 +489,8 @@ def gen_gcs(tier, seed):
     for kn, k in keys:
         for n in sizes:
             for L in lens:
+                if tier == "quick" and n == 2000 and L == 600 and kn not in ("zero", "filler0"):
+                    continue
                 if feasible(n, L) and not (n == 0 and L != 0):
                     cases.append({"key": k.hex(), "kn": kn, "n": n, "L": L, "collide": False, "seed": seed})
     for kn, k in ckeys:
@@ -734,10 +736,10 @@ def gen_bloom(tier, seed):
     cases = []
     tw = tweak_alphabet(tier, seed)
     if tier == "quick":
-        combos = [(s, f) for s in (1, 2, 7, 8, 255, 36000) for f in (1, 2, 50)]
+        combos = [(s, f) for s in (1, 2, 7, 8, 252, 253, 36000) for f in (1, 2, 50)]
         kinds = ["lens", "small", "edge", "none"]
     else:
-        small = (1, 2, 3, 7, 8, 9, 255, 256, 257)
+        small = (1, 2, 3, 7, 8, 9, 252, 253, 255, 256, 257)
         combos = [(s, f) for s in small for f in range(1, 51)]
         combos += [(s, f) for s in (1000, 4096, 35999, 36000) for f in (1, 2, 3, 49, 50)]
         kinds = ["lens", "small", "edge", "none"]
@@ -814,7 +816,7 @@ BS_CHUNK = 64
 
 def gen_bloomsize(tier, seed):
     if tier == "quick":
-        sizes = list(range(1, 2049)) + list(range(35000, 36001))
+        sizes = list(range(1, 2049)) + list(range(35745, 36001))
     else:
         sizes = list(range(1, 36001))
     cases = []
@@ -938,8 +940,8 @@ def engines(tier, seed):
             gen_bloom,
             run_bloom,
             kind="E1",
-            rule="sizes {1,2,7,8,255,36000} x function counts {1,2,50} x tweaks {0,1,2^31-1,2^31,2^32-1,99,filler} (thorough: sizes "
-            "{1,2,3,7,8,9,255,256,257} x every count 1..50, sizes {1000,4096,35999,36000} x {1,2,3,49,50}, 45 tweaks incl. single bits and tweaks "
+            rule="sizes {1,2,7,8,252,253,36000} x function counts {1,2,50} x tweaks {0,1,2^31-1,2^31,2^32-1,99,filler} (thorough: sizes "
+            "{1,2,3,7,8,9,252,253,255,256,257} x every count 1..50, sizes {1000,4096,35999,36000} x {1,2,3,49,50}, 45 tweaks incl. single bits and tweaks "
             "making a seed wrap to 0) x item sequences {one item of every length 0..70, 3 hash-like items, edge items, none}: bit field equals the "
             "reference after every add (sizes <= 256) and at the end, every inserted item matches the serialized filter, filterload layout for "
             "flags 0,1,2 and default. Non-trivial = configuration with at least one item",
@@ -949,7 +951,7 @@ def engines(tier, seed):
             gen_bloomsize,
             run_bloomsize,
             kind="E1",
-            rule="every filter size 1..36000 bytes thorough (1..2048 and 35000..36000 quick) x (3 functions, tweak 0) and (11 functions, tweak 2^32-1), "
+            rule="every filter size 1..36000 bytes thorough (1..2048 and 35745..36000 quick) x (3 functions, tweak 0) and (11 functions, tweak 2^32-1), "
             "two 20-byte items: the set bits of bit_field are exactly the reference positions murmur3(item, i*0xFBA4C795+tweak mod 2^32) mod 8*size",
         ),
     ]
